@@ -89,6 +89,54 @@ func init() {
 		b.WriteString("Definition seam_deadlines : list string := [" + quoteJoin(deadlines) + "].\n")
 		b.WriteString("(* socket options and netlink.Config literals *)\n")
 		b.WriteString("Definition seam_sockopts : list string := [" + quoteJoin(sockopts) + "].\n")
+		// osWatch hands every batch it received to notify itself: exactly one notify(...) call in its body, outside any
+		// function literal, with process(...) as its argument, and no select with a default clause (a non-blocking,
+		// i.e. lossy, hand-over) anywhere in the function.
+		direct := false
+		if fd := findFunc(x.file("internal/netstate/watcher_linux.go"), "osWatch"); fd != nil && fd.Body != nil {
+			calls, inLit, lossy, viaProcess := 0, 0, 0, 0
+			var walk func(n ast.Node, lit bool)
+			walk = func(n ast.Node, lit bool) {
+				ast.Inspect(n, func(nd ast.Node) bool {
+					switch v := nd.(type) {
+					case *ast.FuncLit:
+						if !lit {
+							walk(v.Body, true)
+							return false
+						}
+					case *ast.CommClause:
+						if v.Comm == nil {
+							lossy++
+						}
+					case *ast.CallExpr:
+						if id, ok := v.Fun.(*ast.Ident); ok && id.Name == "notify" {
+							calls++
+							if lit {
+								inLit++
+							}
+							if len(v.Args) == 1 {
+								if a, ok := v.Args[0].(*ast.CallExpr); ok {
+									if f, ok := a.Fun.(*ast.Ident); ok && f.Name == "process" {
+										viaProcess++
+									}
+								}
+							}
+						}
+					}
+					return true
+				})
+			}
+			walk(fd.Body, false)
+			direct = calls == 1 && inLit == 0 && lossy == 0 && viaProcess == 1
+		} else {
+			x.warnf("osWatch not found")
+		}
+		b.WriteString("(* osWatch: one notify(process(...)) call, in the receive loop itself, no non-blocking hand-over *)\n")
+		if direct {
+			b.WriteString("Definition oswatch_notify_direct : bool := true.\n")
+		} else {
+			b.WriteString("Definition oswatch_notify_direct : bool := false.\n")
+		}
 		defZ(&b, x, "seam_files_scanned", int64(nfiles), nfiles > 0, "non-test Go files under internal/ and cmd/")
 		return b.String()
 	})
